@@ -369,10 +369,10 @@ def _is_fresh_empty(e: ast.AST) -> bool:
 
 
 def _is_pure_path(e: ast.AST) -> bool:
-    """a name or an attribute chain on a name (reading it twice is reading it once)"""
+    """a name or an attribute chain on a name / on a literal (reading it twice is reading it once)"""
     while isinstance(e, ast.Attribute):
         e = e.value
-    return isinstance(e, ast.Name)
+    return isinstance(e, (ast.Name, ast.Constant))
 
 
 class _Subst(ast.NodeTransformer):
@@ -808,6 +808,19 @@ class _Desugar(ast.NodeTransformer):
         """list / set / tuple / frozenset / dict / sorted of a private GENERATOR helper's result: the comprehension over that call (which
         the flattener then expands in place): `dict(self._pairs())` -> `{k: v for k, v in self._pairs()}`"""
         fv = self.fv
+        if isinstance(c.func, ast.Attribute) and c.func.attr in ("join", "extend", "update", "writelines") and len(c.args) == 1 and not c.keywords \
+                and isinstance(c.args[0], ast.Call) and fv.repo is not None and fv.f is not None:
+            # sep.join(self._lines()) / xs.extend(self._items()): the generator helper's elements, as a list comprehension over the call
+            try:
+                if _resolve_generator(fv.repo, fv.f, c.args[0]) is not None:
+                    var = f"item__c{next(_counter)}"
+                    comp = ast.ListComp(elt=ast.Name(id=var, ctx=ast.Load()),
+                                        generators=[ast.comprehension(target=ast.Name(id=var, ctx=ast.Store()), iter=c.args[0], ifs=[], is_async=0)])
+                    c.args[0] = ast.fix_missing_locations(ast.copy_location(comp, c))
+                    return c
+            except Exception:
+                pass
+            return None
         if not (isinstance(c.func, ast.Name) and c.func.id in ("list", "set", "tuple", "frozenset", "dict", "sorted") and fv._global(c.func.id)
                 and len(c.args) == 1 and not c.keywords and isinstance(c.args[0], ast.Call)) or fv.repo is None or fv.f is None:
             return None
